@@ -1,6 +1,7 @@
 /* Generators of domain P (see h_parse.c for the case format). */
 #include "h_common.h"
 #include <ctype.h>
+#include "scpi/scpi.h"
 void run_parse(const char *input);
 
 typedef struct { const char *pattern; const char *script; } entry_t;
@@ -220,6 +221,68 @@ void dom_p01(void) {
             if (h_chance(15)) k += (size_t) sprintf(line + k, " -");
         }
         line[k] = 0;
+        emit_case(line);
+    }
+}
+
+/* P4 (C04): numeric literals of every shape against the numeric readers; units in every case; special mnemonics */
+static size_t gen_literal(char *out) {
+    size_t k = 0; unsigned nd = 1 + h_below(h_chance(85) ? 8 : 25), i; unsigned shape = h_below(6);
+    if (h_chance(35)) out[k++] = h_chance(50) ? '-' : '+';
+    if (shape == 0 || shape == 3) { for (i = 0; i < nd; i++) out[k++] = (char)('0' + h_below(10)); }                                   /* integer */
+    if (shape == 1 || shape == 4) { for (i = 0; i < nd; i++) out[k++] = (char)('0' + h_below(10)); out[k++] = '.'; nd = h_below(12); for (i = 0; i < nd; i++) out[k++] = (char)('0' + h_below(10)); }
+    if (shape == 2 || shape == 5) { out[k++] = '.'; for (i = 0; i < nd; i++) out[k++] = (char)('0' + h_below(10)); }
+    if (shape >= 3) {
+        unsigned wsb = h_chance(20) ? 1 + h_below(2) : 0, wsa = h_chance(20) ? 1 + h_below(2) : 0;
+        for (i = 0; i < wsb; i++) out[k++] = h_chance(80) ? ' ' : '\t';
+        out[k++] = h_chance(50) ? 'e' : 'E';
+        for (i = 0; i < wsa; i++) out[k++] = ' ';
+        if (h_chance(60)) out[k++] = h_chance(50) ? '-' : '+';
+        k += (size_t) sprintf(out + k, "%u", h_chance(70) ? h_below(40) : h_below(400));
+    }
+    out[k] = 0;
+    return k;
+}
+
+void dom_p04(void) {
+    static const char *table = NULL; static char tbuf[4096]; static char line[8192], msg[1024], lit[128];
+    static const int idx[] = {24, 26, 27, 28, 29, 30, 36, 25, 31};   /* I32 U32 I64 U64 DBL FLT NUM I32O DBLO */
+    static const char *cmdname[] = {"I32", "U32", "I64", "U64", "DBL", "FLT", "NUM"};
+    static const char *specials[] = {"MIN", "MINimum", "MAX", "MAXimum", "DEF", "DEFault", "UP", "DOWN", "NAN", "INF", "INFinity", "NINF", "AUTO", "MINI", "INFI", "DEFA", "NA"};
+    unsigned long n = h_thorough ? 1500000 : 150000; int u;
+    if (!table) { build_table(tbuf, idx, 9); table = tbuf; }
+    /* every unit of the table in four casings and three separations */
+    for (u = 0; scpi_units_def[u].name; u++) {
+        int cs, sep;
+        for (cs = 0; cs < 4; cs++) for (sep = 0; sep < 3; sep++) {
+            char un[32]; size_t k, j, ml;
+            for (j = 0; scpi_units_def[u].name[j]; j++) { char c = scpi_units_def[u].name[j]; un[j] = cs == 0 ? c : cs == 1 ? (char) tolower((unsigned char) c) : cs == 2 ? ((j & 1) ? (char) tolower((unsigned char) c) : c) : ((j & 1) ? c : (char) tolower((unsigned char) c)); }
+            un[j] = 0;
+            ml = (size_t) sprintf(msg, "NUM %s%s%s\n", h_chance(50) ? "2.5" : "-12e1", sep == 0 ? "" : sep == 1 ? " " : "  ", un);
+            k = (size_t) sprintf(line, "P 256 16 %s ", table); k += chunk_hex(line + k, msg, ml);
+            emit_case(line);
+        }
+    }
+    for (u = 0; u < 17; u++) { int cs; for (cs = 0; cs < 3; cs++) {
+        char sp[32]; size_t k, j, ml; for (j = 0; specials[u][j]; j++) sp[j] = cs == 0 ? specials[u][j] : cs == 1 ? (char) tolower((unsigned char) specials[u][j]) : (char) toupper((unsigned char) specials[u][j]); sp[j] = 0;
+        ml = (size_t) sprintf(msg, "NUM %s\n", sp); k = (size_t) sprintf(line, "P 256 16 %s ", table); k += chunk_hex(line + k, msg, ml); emit_case(line); } }
+    for (; n; n--) {
+        size_t k, ml; unsigned kind = h_below(10);
+        if (kind < 7) { gen_literal(lit); ml = (size_t) sprintf(msg, "%s %s\n", cmdname[h_below(7)], lit); }
+        else if (kind < 9) {
+            /* nondecimal up to the type width */
+            unsigned base = h_below(3), digits, i; char *p = lit;
+            p += sprintf(p, "#%c", "HQB"[base] + (h_chance(50) ? 32 : 0));
+            digits = 1 + h_below(base == 0 ? 16 : base == 1 ? 22 : 64);
+            for (i = 0; i < digits; i++) *p++ = base == 0 ? "0123456789abcdefABCDEF"[h_below(22)] : base == 1 ? (char)('0' + h_below(8)) : (char)('0' + h_below(2));
+            *p = 0;
+            ml = (size_t) sprintf(msg, "%s %s\n", cmdname[h_below(7)], lit);
+        } else {
+            /* boundaries of the integer widths */
+            static const char *b[] = {"2147483647", "-2147483648", "2147483648", "4294967295", "4294967296", "9223372036854775807", "-9223372036854775808", "18446744073709551615", "0", "-0", "+0", "00012"};
+            ml = (size_t) sprintf(msg, "%s %s\n", cmdname[h_below(4)], b[h_below(12)]);
+        }
+        k = (size_t) sprintf(line, "P 256 16 %s ", table); k += chunk_hex(line + k, msg, ml);
         emit_case(line);
     }
 }
